@@ -20,6 +20,7 @@ Expected(r) ==
     [] r.op = "set" -> SetByte(s, a, r.b)
     [] r.op = "range" -> RangeOf(s, a, b)
     [] r.op = "incl" -> RangeIncl(s, a, b)
+    [] r.op = "incl_spent" -> RangeInclSpent(s, a, b)
     [] r.op = "eq" -> [k |-> "bool", v |-> s = r.other]
     [] r.op = "concat" -> Bytes(Concat(s, r.other))
 Verdict(r) ==
